@@ -1,5 +1,6 @@
 import Driver.Util
 import Mtv.Session.Store
+import Mtv.Session.Start
 namespace Driver.C12
 open Mtv Mtv.Session Driver
 
@@ -26,7 +27,7 @@ def showUnit : Outcome Unit → String
 def str (s : String) : Bytes := s.toUTF8.toList
 
 /-- the path a shape stands for, and the directories that exist -/
-def shape? : String → Option (Path × List Path)
+def baseShape? : String → Option (Path × List Path)
   | "abs" => some (str "/w/d/s.json", [str "/w/d/", str "."])
   | "rel" => some (str "d/s.json", [str "d/", str "."])
   | "dotrel" => some (str "./s.json", [str "./", str "."])
@@ -34,6 +35,19 @@ def shape? : String → Option (Path × List Path)
   | "nodir" => some (str "/w/missing/s.json", [str "."])
   | "relnodir" => some (str "missing/s.json", [str "."])
   | _ => none
+
+/-- `<path shape>` or `<path shape>+<environment>`: the environment of the process (where its temporary directory is,
+whether it exists) is no argument of the model's `store`/`load` — they depend on the path and its directory alone -/
+def shape? (t : String) : Option (Path × List Path) :=
+  match t.splitOn "+" with
+  | [b] => baseShape? b
+  | [b, e] => if e = "notmp" ∨ e = "tmpfile" ∨ e = "tmpdev" then baseShape? b else none
+  | _ => none
+
+/-- what `Config.SessionStorage` is in `c12.cfg`: the file loader on a path, or a storage of the application's own -/
+inductive CfgStorage where
+  | file (p : Path)
+  | mem (s : Option Session)
 
 def mkFS (dirs : List Path) : FS := ⟨fun q => if q ∈ dirs then some .dir else none⟩
 
@@ -182,6 +196,58 @@ def handle : List String → String
         | .err e => "err:" ++ e
         | .panic q => "panic:" ++ q
     | none => "bad-op"
+  | ["c12.cfg", kind, state, file, sa, sb] =>
+    match parseSess? sa, parseSess? sb with
+    | some a, some b =>
+      let storeP := str "/w/d/storage.json"
+      let fs0 := mkFS [str "/w/d/", str "."]
+      -- Config.SessionStorage
+      let stg? : Option (Option CfgStorage × FS) :=
+        if state ≠ "0" ∧ state ≠ "1" then none
+        else if kind = "file" then
+          some (some (.file storeP), if state = "1" then fs0.write storeP (writeSession a) 0 else fs0)
+        else if kind = "mem" then some (some (.mem (if state = "1" then some a else none)), fs0)
+        else if kind = "nil" then some (none, fs0)
+        else none
+      -- Config.AuthKeyFile
+      let fileP := str "/w/d/authkey.json"
+      let dataB := writeSession b
+      let file? : Option (Path × Option Bytes) :=
+        if file = "unset" then some ([], none)
+        else if file = "0" then some (fileP, none)
+        else if file = "nodir" then some (str "/w/d/missing/authkey.json", none)
+        else if file = "1" then some (fileP, some dataB)
+        else match file.toList with
+          | 't' :: k => (String.ofList k).toNat?.map fun k => (fileP, some (dataB.take k))
+          | _ => none
+      match stg?, file? with
+      | some (stg, fs1), some (fp, content) =>
+        let fs := match content with | some c => fs1.write fp c 0 | none => fs1
+        let chosen := chooseStorage stg fp
+        let client : Outcome Client :=
+          match chosen with
+          | .given (.file p) => newClient (Loader.new p) fs cfgHost
+          | .given (.mem (some s)) => startClient (.session s) cfgHost
+          | .given (.mem none) => startClient .notFound cfgHost
+          | .file p => newClient (Loader.new p) fs cfgHost
+          | .none => .err "nostorage"
+        match client with
+        | .ok c =>
+          let sess : Session := { key := c.authKey, hash := c.authKeyHash, salt := c.serverSalt, hostname := c.addr }
+          let viaFile (p : Path) : String :=
+            let (_, fs2, o) := (Loader.new p).store (FS.remove fs p) sess 0
+            match o with
+            | .ok _ => showRes ((Loader.new p).load fs2).2
+            | _ => "save-failed"
+          let saved := match chosen with
+            | .given (.file p) => viaFile p
+            | .given (.mem _) => "ok:" ++ showSess sess
+            | .file p => viaFile p
+            | .none => "-"
+          s!"client={showClient client} saved={saved} other={if kind = "nil" then "-" else "same"}"
+        | _ => s!"client={showClient client} saved=- other=-"
+      | _, _ => "bad-op"
+    | _, _ => "bad-op"
   | _ => "bad-op"
 
 end Driver.C12
